@@ -59,6 +59,7 @@ func (fv *FuncVC) cborBuild() bool { return strings.Contains(fv.P.Tags, "binary_
 
 func (fv *FuncVC) streamPrelude() []string {
 	ghostOnly := []string{
+		"(declare-fun poolowned (Int) Bool)",
 		"(define-fun aftervalue ((m Int)) Int (ite (= m 7) 3 (ite (or (= m 8) (= m 10)) 9 (ite (= m 1) 14 (ite (= m 16) 17 0)))))",
 		"(define-fun afterstr ((m Int)) Int (ite (= m 5) 6 (ite (= m 11) 3 (ite (= m 12) 9 (ite (= m 13) 14 (ite (= m 18) 17 0))))))",
 		"(define-fun openstr ((m Int)) Int (ite (or (= m 2) (= m 4)) 5 (ite (= m 7) 11 (ite (or (= m 8) (= m 10)) 12 (ite (= m 1) 13 (ite (= m 16) 18 0))))))",
